@@ -90,3 +90,16 @@ def deliveries : List Step → List Ev
 def sourceFinal (init : Bool) (evs : List Ev) : Bool := evs.foldl (fun _ e => e.add) init
 
 end Am.Pipes
+
+/-! ### BindAny: the whole active set is piped with Set -/
+namespace Am.Pipes
+
+/-- `names` = the source's state names, `tgt` = the target's active set, `states` = the source
+    transition's target states. `exact = true`: the Set is skipped only when exactly those states of
+    the source are active on the target (fix 8d7ab55); `false`: the pinned subset test. -/
+def bindAnyStep (exact : Bool) (names tgt states : List Nat) : List Nat :=
+  let sub := states.all (fun x => tgt.contains x)
+  let none' := (names.filter (fun n => !states.contains n)).all (fun n => !tgt.contains n)
+  if sub && (!exact || none') then tgt else states
+
+end Am.Pipes
